@@ -20,6 +20,7 @@ pub fn pool(tag: &str, thorough: bool) -> Vec<Vec<String>> {
         vec![format!("(define-syntax when (syntax-rules () ((when a ...) '{}-when)))", t), "(when #f 1)".into(), "(unless #f 'u)".into()],
         vec![format!("(define-syntax let (syntax-rules () ((let a ...) '{}-let)))", t), "(let ((q 1)) q)".into(), "(or #f 5)".into()],
         vec!["(import (nolib))".into(), "(car '(1 2))".into(), "(import (scheme base))".into()],
+        vec!["(import (util config))".into(), "(config-value)".into(), "(list (config-value) x)".into()],
         vec!["(car '())".into(), "(undefined-thing)".into(), "(+ 1 2)".into()],
         vec!["(let ((a 1)) (cond ((= a 1) 'one) (else 'other)))".into(), "(when #t 'w)".into(), "(my 3)".into()],
         vec!["(and 1 (or #f 2) (case 2 ((1) 'a) ((2) 'b) (else 'c)))".into(), "(let* ((a 1) (b (+ a 1))) (list a b))".into(), "x".into()],
@@ -58,6 +59,27 @@ pub fn interleavings(a: usize, b: usize) -> Vec<Vec<bool>> {
     out
 }
 
+/// each instance has its own program directory holding a library (util config) of different content
+pub fn dirs() -> (std::path::PathBuf, std::path::PathBuf) {
+    let base = std::path::PathBuf::from(format!("/verif/target/scratch/c19-{}", std::process::id()));
+    (base.join("dir-a"), base.join("dir-b"))
+}
+
+/// written once, before any execution starts (executions only read)
+pub fn setup_dirs() -> (std::path::PathBuf, std::path::PathBuf) {
+    let (da, db) = dirs();
+    for (d, tag) in [(&da, "A"), (&db, "B")] {
+        let _ = std::fs::create_dir_all(d.join("util"));
+        let _ = std::fs::write(d.join("util/config.sld"), format!("(define-library (util config) (export config-value) (begin (define (config-value) 'config-of-{})))\n", tag));
+    }
+    (da, db)
+}
+
+/// forms that fail (at expansion time, at run time, while importing); repeated N times through
+/// one instance they must not change anything observed through another
+pub const FAILING: &[&str] = &["(cond)", "(when)", "(let ((p 1)))", "(car '())", "(undefined-thing 1)", "(if)", "(vector-ref (vector) 0)", "((lambda (a) a))"];
+pub const REPEATS: &[usize] = &[1, 8, 63, 64, 65, 200, 1000];
+
 const THIRD_INSTANCE_FORM: &str = "(let ((q 1)) (cond ((= q 1) (when #t (list 'third (or #f q))))))";
 const THIRD_INSTANCE_VALUE: &str = "(third 1)";
 
@@ -69,10 +91,12 @@ fn strip_location(o: &Outcome) -> String {
 }
 
 /// program alone on a new thread
-pub fn alone(prog: &[String]) -> Vec<String> {
+pub fn alone(prog: &[String], dir: &std::path::Path) -> Vec<String> {
     let p = prog.to_vec();
+    let dir = dir.to_path_buf();
     on_fresh_thread(move || {
         let mut it = Interp::new().expect("interpreter");
+        it.it.program_directory = Some(dir);
         p.iter().map(|f| strip_location(&it.eval(f))).collect()
     })
 }
@@ -85,10 +109,18 @@ pub struct Run {
 }
 
 pub fn interleaved(a: &[String], b: &[String], order: &[bool]) -> Run {
+    interleaved_thin(a, b, order, 1)
+}
+
+/// like `interleaved`, creating the third instance only after every `every`-th step and the last one
+pub fn interleaved_thin(a: &[String], b: &[String], order: &[bool], every: usize) -> Run {
     let (a, b, order) = (a.to_vec(), b.to_vec(), order.to_vec());
+    let (da, db) = dirs();
     on_fresh_thread(move || {
         let mut i1 = Interp::new().expect("instance 1");
         let mut i2 = Interp::new().expect("instance 2");
+        i1.it.program_directory = Some(da);
+        i2.it.program_directory = Some(db);
         let (mut ra, mut rb) = (vec![], vec![]);
         let (mut tf, mut inv) = (vec![], vec![]);
         let (mut ia, mut ib) = (0, 0);
@@ -106,6 +138,9 @@ pub fn interleaved(a: &[String], b: &[String], order: &[bool]) -> Run {
                 if !ip.is_empty() {
                     inv.push(format!("after step {}: {} has libraries marked in progress: {:?}", step + 1, name, ip));
                 }
+            }
+            if (step + 1) % every != 0 && step + 1 != order.len() {
+                continue;
             }
             // creating (and using) a new instance always succeeds
             match guarded(|| Interp::new()) {
@@ -125,8 +160,9 @@ pub fn interleaved(a: &[String], b: &[String], order: &[bool]) -> Run {
 pub fn run(ctx: &Ctx) -> i32 {
     let pa = pool("A", ctx.thorough());
     let pb = pool("B", ctx.thorough());
-    let alone_a: Vec<Vec<String>> = pa.iter().map(|p| alone(p)).collect();
-    let alone_b: Vec<Vec<String>> = pb.iter().map(|p| alone(p)).collect();
+    let (da, db) = setup_dirs();
+    let alone_a: Vec<Vec<String>> = pa.iter().map(|p| alone(p, &da)).collect();
+    let alone_b: Vec<Vec<String>> = pb.iter().map(|p| alone(p, &db)).collect();
     // work items: (a, b, interleaving)
     let mut items = vec![];
     for (ai, a) in pa.iter().enumerate() {
@@ -177,7 +213,47 @@ pub fn run(ctx: &Ctx) -> i32 {
             }
         },
     );
+    // ladder: a failing form repeated N times through instance 1, then B through instance 2
+    let mut ladder = vec![];
+    for f in FAILING {
+        for n in REPEATS {
+            for bi in [0usize, 4, 10, 11, 12] {
+                ladder.push((f.to_string(), *n, bi.min(pb.len() - 1)));
+            }
+        }
+    }
+    let lr = &ladder;
+    let lacc = par::sweep(
+        ladder.len() as u64,
+        1,
+        |_| (),
+        |_, acc: &mut Acc, i| {
+            let (f, n, bi) = &lr[i as usize];
+            let a: Vec<String> = std::iter::repeat(f.clone()).take(*n).collect();
+            let mut order = vec![true; *n];
+            order.extend(vec![false; pbr[*bi].len()]);
+            // the third instance is created after every step: thin it out for the long ladders
+            let r = interleaved_thin(&a, &pbr[*bi], &order, (*n / 8).max(1));
+            acc.evals += 1;
+            acc.transitions += order.len() as u64;
+            acc.count("ladder", 1);
+            let mut problems = vec![];
+            if r.b_results != abr[*bi] {
+                problems.push(format!("B's results {:?} differ from B alone {:?}", r.b_results, abr[*bi]));
+            }
+            problems.extend(r.third_failures.iter().cloned());
+            problems.extend(r.invariant_failures.iter().cloned());
+            if !problems.is_empty() {
+                acc.mismatch(
+                    Mismatch { idx: total + i, case: format!("A (instance 1): {} repeated {} times\nB (instance 2): {}", f, n, pbr[*bi].join(" ")), expected: ": B's results as when run alone; every new instance works".into(), observed: problems.join(" ; "), payload: json!({"a": a, "b": pbr[*bi], "order": order}) },
+                    None,
+                );
+            }
+        },
+    );
+    acc.merge(lacc);
     drop(silencer);
+    let _ = std::fs::remove_dir_all(format!("/verif/target/scratch/c19-{}", std::process::id()));
     acc.states = acc.distinct.len() as u64;
     report::finish(
         acc,
@@ -186,7 +262,7 @@ pub fn run(ctx: &Ctx) -> i32 {
             tier: ctx.tier_name(),
             seed: ctx.seed,
             exhaustive: true,
-            rule: format!("every pair of programs from two pools of {} (definitions, assignments, closures with state, vector mutation, define-syntax of a new keyword / of the same keyword / of bundled keywords cond, when, let, failing imports, run-time errors, uses of derived forms) x every interleaving of A's forms on instance 1 with B's forms on instance 2 on one fresh thread; after every step a third instance is created and evaluates a form using let/cond/when/or; transitions = steps; states = distinct result vectors", pa.len()),
+            rule: format!("every pair of programs from two pools of {} (definitions, assignments, closures with state, vector mutation, define-syntax of a new keyword / of the same keyword / of bundled keywords cond, when, let, failing imports, run-time errors, uses of derived forms, import of a same-named file library from per-instance program directories) x every interleaving of A's forms on instance 1 with B's forms on instance 2 on one fresh thread; after every step a third instance is created and evaluates a form using let/cond/when/or; plus a ladder: each of {} failing forms repeated N in {:?} times through instance 1 before B runs on instance 2; transitions = steps; states = distinct result vectors", pa.len(), FAILING.len(), REPEATS),
             bounds: json!({"pairs": pa.len() * pb.len(), "executions": total, "forms_per_program": pa.iter().map(|p| p.len()).max()}),
             assumptions: vec!["'alone' = the same program on a new thread and a new instance".into()],
             wall_s: ctx.elapsed(),
@@ -200,8 +276,9 @@ pub fn replay(p: &serde_json::Value) -> bool {
     let b: Vec<String> = p["b"].as_array().unwrap().iter().map(|x| x.as_str().unwrap().to_string()).collect();
     let order: Vec<bool> = p["order"].as_array().unwrap().iter().map(|x| x.as_bool().unwrap()).collect();
     let _s = crate::drive::StdoutSilencer::new();
+    let (da, db) = setup_dirs();
     let r = interleaved(&a, &b, &order);
-    let (aa, ab) = (alone(&a), alone(&b));
+    let (aa, ab) = (alone(&a, &da), alone(&b, &db));
     drop(_s);
     println!("A {:?}\nB {:?}\norder {:?}\nA results {:?} (alone {:?})\nB results {:?} (alone {:?})\nthird instance: {:?}", a, b, order, r.a_results, aa, r.b_results, ab, r.third_failures);
     r.a_results != aa || r.b_results != ab || !r.third_failures.is_empty() || !r.invariant_failures.is_empty()
